@@ -7,7 +7,10 @@ Inductive c08case :=
 | KPut (mutable : bool) (sent : list N) (evs : list pevent) (impl : option (outcome * N))
        (tokens_ok : bool) (n_tokenful : N) (extra_result : bool)
 | KConflict (first_inflight : bool) (first second : mput) (impl : cdecision)
-            (final_first final_second : option outcome).
+            (final_first final_second : option outcome)
+(* two different announce_peer puts for one target on one node: the results of both calls, and the number of
+   acknowledged store requests that carried the first / the second put's own payload *)
+| KTwoPuts (sequential : bool) (ok1 ok2 : option bool) (acked1 acked2 : N).
 
 Definition cerr_eqb (a b : cerr) : bool :=
   match a, b with CasFailed, CasFailed | NotMostRecent, NotMostRecent | ConflictRisk, ConflictRisk => true | _, _ => false end.
@@ -104,6 +107,15 @@ Definition check08 (c : c08case) : list N :=
   | KConflict fi first second impl f1 f2 =>
       (if dec_eqb (dec_obs (check_concurrency (if fi then Some first else None) second)) impl then [] else [1]) ++
       (if conflict_pb fi first second impl f1 f2 then [] else [2])
+  | KTwoPuts sequential ok1 ok2 a1 a2 =>
+      (* C08 on the observations: Ok needs an acknowledgement of a store request of that very put; every call
+         gets an outcome. Known class F24: overlapping puts for one target - the later one replaces the earlier
+         one's query, whose caller is then given the later one's result *)
+      let good := match ok1, ok2 with
+                  | Some r1, Some r2 => (if r1 then 0 <? a1 else true) && (if r2 then 0 <? a2 else true)
+                  | _, _ => false
+                  end in
+      if good then [] else if sequential then [2] else [124]
   end.
 
 Fixpoint run08 (k : N) (cs : list c08case) : list (N * N) :=
